@@ -31,6 +31,10 @@ type SCIONPkt struct {
 	SCMPEcho         *slayers.SCMPEcho
 	SCMPTrace        *slayers.SCMPTraceroute
 	Payload          []byte
+	// raw overrides of the host address fields (type/length nibble and bytes), for address
+	// types other than IP
+	RawSrcType, RawDstType *slayers.AddrType
+	RawSrc, RawDst         []byte
 }
 
 // Serialize encodes the packet. The returned layer values can be used to recompute authenticators.
@@ -45,6 +49,12 @@ func (p *SCIONPkt) Serialize() ([]byte, error) {
 	}
 	if err := s.SetDstAddr(addr.HostIP(p.DstHost)); err != nil {
 		return nil, err
+	}
+	if p.RawSrcType != nil {
+		s.SrcAddrType, s.RawSrcAddr = *p.RawSrcType, p.RawSrc
+	}
+	if p.RawDstType != nil {
+		s.DstAddrType, s.RawDstAddr = *p.RawDstType, p.RawDst
 	}
 	if p.Path == nil {
 		p.Path = empty.Path{}
